@@ -121,6 +121,36 @@ def drive_sync(script, timeout_s=0.05):
                     k = t.bulk_write(data, None if a.get('tmo') == 'none' else timeout_s)
                     got = peer_read(L.peer, k if isinstance(k, int) and 0 < k <= len(data) else 0)
                     tr.append(dict(op='hw', n=len(data), k=k if isinstance(k, int) else -1, prefixOk=(got == data[:len(got)] and len(got) == k)))
+                elif op == 'rst':
+                    # the peer aborts the connection (RST: a rebooting device); whatever the reads that follow return or raise is not judged
+                    import struct
+                    L.peer.setsockopt(socket.SOL_SOCKET, socket.SO_LINGER, struct.pack('ii', 1, 0))
+                    L.drop_peer()
+                    time.sleep(0.02)
+                    for _ in range(2):
+                        try:
+                            t.bulk_read(4, timeout_s)
+                        except Exception:  # noqa
+                            pass
+                    tr.append(dict(op='rst'))
+                elif op == 'dread':
+                    # a read without a timeout blocks until the peer says something - however long that takes
+                    data = bytes(byte_name(written + i + 1) for i in range(a['m']))
+                    import threading
+                    tm = threading.Timer(a['delay'], lambda: L.peer.sendall(data))
+                    tm.start()
+                    try:
+                        got = t.bulk_read(a['n'], None)
+                        tr.append(dict(op='pw', m=a['m']))
+                        written += a['m']
+                        ok = [byte_name(delivered + i + 1) for i in range(len(got))] == list(got)
+                        tr.append(dict(op='read', n=a['n'], k=len(got), first=delivered + 1, contiguous=bool(ok)))
+                        delivered += len(got)
+                    except Exception as x:  # noqa
+                        tr.append(dict(op='error', clause='NoTimeoutMeansWait', what='bulk_read(n, None) raised %r although the peer spoke after %.2f s' % (x, a['delay'])))
+                        tm.join()
+                        break
+                    tm.join()
                 elif op == 'oob':
                     if not oob_sent:                       # one urgent byte per connection: TCP turns an earlier urgent byte into ordinary data when another arrives
                         oob_sent = True
@@ -190,6 +220,30 @@ def drive_async(script, timeout_s=0.05):
                         k = await t.bulk_write(data, None if a.get('tmo') == 'none' else max(timeout_s, 5.0))
                         got = await rd
                         tr.append(dict(op='hw', n=len(data), k=k if isinstance(k, int) else -1, prefixOk=(got == data[:len(got)] and len(got) == k)))
+                    elif op == 'rst':
+                        import struct
+                        L.peer.setsockopt(socket.SOL_SOCKET, socket.SO_LINGER, struct.pack('ii', 1, 0))
+                        L.drop_peer()
+                        await asyncio.sleep(0.02)
+                        for _ in range(2):
+                            try:
+                                await t.bulk_read(4, timeout_s)
+                            except Exception:  # noqa
+                                pass
+                        tr.append(dict(op='rst'))
+                    elif op == 'dread':
+                        data = bytes(byte_name(written + i + 1) for i in range(a['m']))
+                        asyncio.get_running_loop().call_later(a['delay'], lambda: L.peer.sendall(data))
+                        try:
+                            got = await t.bulk_read(a['n'], None)
+                            tr.append(dict(op='pw', m=a['m']))
+                            written += a['m']
+                            ok = [byte_name(delivered + i + 1) for i in range(len(got))] == list(got)
+                            tr.append(dict(op='read', n=a['n'], k=len(got), first=delivered + 1, contiguous=bool(ok)))
+                            delivered += len(got)
+                        except Exception as x:  # noqa
+                            tr.append(dict(op='error', clause='NoTimeoutMeansWait', what='bulk_read(n, None) raised %r although the peer spoke after %.2f s' % (x, a['delay'])))
+                            break
                     elif op == 'oob':
                         if not oob_sent:
                             oob_sent = True
@@ -323,6 +377,13 @@ def body(ctx, prefix='C18'):
                 continue          # quick: every path of the tour once, the two transports taking turns
             traces.append(drv(sc))
             meta.append(dict(kind='tour-script', mode=mode, script=sc))
+    # the peer aborts the connection (RST): close() still works, twice, and the same object connects again; and a read without a
+    # timeout waits for a peer that stays silent for longer than the timeout connect() was given
+    for mode, drv in (('sync', drive_sync), ('async', drive_async)):
+        sc = [dict(op='connect'), dict(op='pw', m=3), dict(op='read', n=3), dict(op='rst'), dict(op='close'), dict(op='close'), dict(op='connect'), dict(op='pw', m=2), dict(op='read', n=2),
+              dict(op='dread', m=3, n=3, delay=0.25), dict(op='dread', m=1, n=24, delay=0.12), dict(op='close')]
+        traces.append(drv(sc))
+        meta.append(dict(kind='peer reset, then reconnect; reads without a timeout', mode=mode, script=sc))
     # what the peer had sent and the host had not consumed when it closed must not turn up on the next connection
     for mode, drv in (('sync', drive_sync), ('async', drive_async)):
         for (sent, taken) in ((3, 1), (30, 24), (5000, 24), (2, 2)):
